@@ -73,6 +73,96 @@ Definition run_spec (rk : regkind) (c : cfg) (cm : bool) (h : hdr) : bool :=
 
 Definition is_ok {A} (r : res A) : bool := match r with Ok _ => true | Err _ => false end.
 
+(* ---------- entry points: where check_header sits in each public function ----------
+   Every public producing / consuming function of joserfc.jws, joserfc.rfc7797,
+   joserfc.jwe and joserfc.jwt, as a guard sequence.  What is not header
+   validation is abstract: [pre] (parsing, extract_compact, get_enc: before the
+   header check), [step] (per signature / recipient, after its header check:
+   key lookup, check_use, get_alg, signing / key wrapping / unwrapping),
+   [verify] (the verdict of verify_compact) and [post] (content decryption,
+   claims parsing).  The JSON flattened / general forms differ only in the
+   number of members. *)
+Inductive entry :=
+| JwsSerializeCompact | JwsSerializeJson | JwsValidateCompact | JwsDeserializeCompact | JwsDeserializeJson
+| R7797SerializeCompact | R7797SerializeJson | R7797DeserializeCompact | R7797DeserializeJson
+| JwtEncodeJws | JwtDecodeJws | JwtEncodeJwe (drafts : bool) | JwtDecodeJwe (drafts : bool)
+| JweEncryptCompact (drafts : bool) | JweEncryptJson (drafts : bool)
+| JweDecryptCompact (drafts : bool) | JweDecryptJson (drafts : bool).
+
+Definition entry_rk (e : entry) : regkind :=
+  match e with
+  | JwsSerializeCompact | JwsSerializeJson | JwsValidateCompact | JwsDeserializeCompact
+  | JwsDeserializeJson | JwtEncodeJws | JwtDecodeJws => RJws
+  | R7797SerializeCompact | R7797SerializeJson | R7797DeserializeCompact | R7797DeserializeJson => RJws7797
+  | JwtEncodeJwe d | JwtDecodeJwe d | JweEncryptCompact d | JweEncryptJson d
+  | JweDecryptCompact d | JweDecryptJson d => RJwe d
+  end.
+
+Definition entry_consuming (e : entry) : bool :=
+  match e with
+  | JwsValidateCompact | JwsDeserializeCompact | JwsDeserializeJson | R7797DeserializeCompact
+  | R7797DeserializeJson | JwtDecodeJws | JwtDecodeJwe _ | JweDecryptCompact _ | JweDecryptJson _ => true
+  | _ => false
+  end.
+
+(* check_more: _perform_decrypt passes True, __prepare_recipient_algorithm nothing *)
+Definition entry_cm (e : entry) : bool :=
+  match e with JwtDecodeJwe _ | JweDecryptCompact _ | JweDecryptJson _ => true | _ => false end.
+
+(* jwt.encode: _header = {"typ": "JWT", **header} *)
+Definition jwt_typ : hdr := [(asc "typ", PStr (asc "JWT"))].
+Definition entry_parts (e : entry) (parts : list hdr) : list hdr :=
+  match e with JwtEncodeJws | JwtEncodeJwe _ => jwt_typ :: parts | _ => parts end.
+Definition entry_header (e : entry) (parts : list hdr) : hdr := merge_parts (entry_parts e parts).
+
+Section EntryRun.
+  Variable pre : res unit.
+  Variable step : hdr -> res unit.
+  Variable verify : res bool.
+  Variable post : res unit.
+
+  (* registry.check_header(headers) and then the rest for this signature / recipient *)
+  Definition checked_member (e : entry) (c : cfg) (parts : list hdr) : res unit :=
+    let h := entry_header e parts in
+    do _ <- run_check (entry_rk e) c (entry_cm e) h; step h.
+
+  Fixpoint members_loop (e : entry) (c : cfg) (ms : list (list hdr)) : res unit :=
+    match ms with
+    | [] => Ok tt
+    | m :: r => do _ <- checked_member e c m; members_loop e c r
+    end.
+
+  Definition generic_run (e : entry) (c : cfg) (ms : list (list hdr)) : res unit :=
+    do _ <- pre; do _ <- members_loop e c ms; post.
+
+  (* jws.validate_compact(obj, key): check_header, key, get_alg, verify_compact *)
+  Definition validate_compact_run (c : cfg) (parts : list hdr) : res bool :=
+    do _ <- checked_member JwsValidateCompact c parts; verify.
+  (* jws.deserialize_compact: extract_compact, then validate_compact, BadSignatureError on False *)
+  Definition deserialize_compact_run (c : cfg) (parts : list hdr) : res unit :=
+    do _ <- pre;
+    do b <- validate_compact_run c parts;
+    if (b : bool) then Ok tt else Err (EJose BadSignatureError).
+  (* jwt.decode (JWS): deserialize_compact, then the claims *)
+  Definition jwt_decode_jws_run (c : cfg) (parts : list hdr) : res unit :=
+    do _ <- deserialize_compact_run c parts; post.
+
+  Definition entry_run (e : entry) (c : cfg) (ms : list (list hdr)) : res unit :=
+    match e, ms with
+    | JwsValidateCompact, [p] =>
+        do b <- validate_compact_run c p; if (b : bool) then Ok tt else Err (EJose BadSignatureError)
+    | JwsDeserializeCompact, [p] => deserialize_compact_run c p
+    | JwtDecodeJws, [p] => jwt_decode_jws_run c p
+    | (JwsValidateCompact | JwsDeserializeCompact | JwtDecodeJws), _ => Err EAssert   (* one header only *)
+    | _, _ => generic_run e c ms
+    end.
+End EntryRun.
+
+(* the run of an entry point on an otherwise valid object: everything that is not
+   header validation succeeds *)
+Definition entry_run_valid (e : entry) (c : cfg) (ms : list (list hdr)) : res unit :=
+  entry_run (Ok tt) (fun _ => Ok tt) (Ok true) (Ok tt) e c ms.
+
 Inductive c15case :=
 (* registry.check_header(h[, check_more]) gave [expect]; the harness' own
    reading of the property gave [spec] *)
@@ -80,7 +170,7 @@ Inductive c15case :=
 (* an entry point was run on an otherwise valid object whose signatures /
    recipients have the given header parts (protected, unprotected,
    per-recipient); it returned normally iff [accepted] *)
-| CApi (rk : regkind) (c : option cfg) (cm : bool) (members : list (list hdr)) (accepted : bool)
+| CApi (e : entry) (c : option cfg) (members : list (list hdr)) (accepted : bool)
        (* the class it raised, recorded when nothing else can fail before the header check *)
        (raised : option exn).
 
@@ -98,19 +188,20 @@ Definition c15_check (x : c15case) : bool :=
   | CCheck rk c cm h e s =>
       res_eqb unit_eqb (run_check rk (the_cfg rk c) cm h) e &&
       Bool.eqb (run_spec rk (the_cfg rk c) cm h) s
-  | CApi rk c cm ms acc raised =>
-      let rs := map (fun parts => run_check rk (the_cfg rk c) cm (merge_parts parts)) ms in
-      Bool.eqb (forallb is_ok rs) acc &&
+  | CApi e c ms acc raised =>
+      let r := entry_run_valid e (the_cfg (entry_rk e) c) ms in
+      Bool.eqb (is_ok r) acc &&
       match raised with
       | None => true
-      | Some e => match first_err rs with Some e' => exn_eqb e e' | None => false end
+      | Some x => match r with Err x' => exn_eqb x x' | Ok _ => false end
       end
   end.
 
 Definition c15_show (x : c15case) : list (res unit) * list bool :=
   match x with
   | CCheck rk c cm h _ _ => ([run_check rk (the_cfg rk c) cm h], [run_spec rk (the_cfg rk c) cm h])
-  | CApi rk c cm ms _ _ =>
-      (map (fun parts => run_check rk (the_cfg rk c) cm (merge_parts parts)) ms,
-       map (fun parts => run_spec rk (the_cfg rk c) cm (merge_parts parts)) ms)
+  | CApi e c ms _ _ =>
+      (entry_run_valid e (the_cfg (entry_rk e) c) ms ::
+       map (fun parts => run_check (entry_rk e) (the_cfg (entry_rk e) c) (entry_cm e) (entry_header e parts)) ms,
+       map (fun parts => run_spec (entry_rk e) (the_cfg (entry_rk e) c) (entry_cm e) (entry_header e parts)) ms)
   end.
